@@ -44,7 +44,7 @@ type procResult struct {
 	Exit     int // -1: killed by us
 	Dumped   bool
 	TimedOut bool
-	Stalled  bool // the node's watchdog reported no commit for stallLimit of its own running time
+	Stalled  bool                         // the node's watchdog reported no commit for stallLimit of its own running time
 	Lines    map[string][]json.RawMessage // keyword → payloads
 	Order    []string
 	Stderr   string
